@@ -191,3 +191,8 @@ def replay(path):
     print("VIOLATION property=C17 replay=%s" % path)
     print("  %s" % json.dumps(r.get("rejected_at", r.get("error")), default=str)[:500])
     return 1
+
+
+def selftest(seed):
+    from checks import selftest as st
+    return st.run([st.abc])
